@@ -8,6 +8,7 @@ import (
 	_ "time/tzdata" // embedded zone database: the process's local zone is a configuration the code could observe
 
 	"go.lstv.dev/util/date"
+	"verif/libdefaults"
 	"verif/mc"
 	"verif/oracle"
 )
@@ -16,7 +17,7 @@ type arg struct {
 	In     mc.Bin `json:"in"`
 	Rule   int    `json:"rule"`
 	MaxLen int    `json:"max_input_length"`
-	Path   int    `json:"path"` // 0 DefaultParser[string], 1 DefaultParser[[]byte], 2 UnmarshalText (rule 0 only)
+	Path   int    `json:"path"`                 // 0 DefaultParser[string], 1 DefaultParser[[]byte], 2 UnmarshalText (rule 0 only)
 	Zone   string `json:"time_local,omitempty"` // the process's local zone during the call ("" = unchanged)
 }
 
@@ -24,12 +25,13 @@ var defaultLocal = time.Local
 
 func reset() {
 	time.Local = defaultLocal
-	date.MaxInputLength = 10
-	date.Formatter = date.DefaultFormatter
-	date.Parser = date.DefaultParser[[]byte]
+	libdefaults.Date()
 }
 func setup(a arg) {
 	date.MaxInputLength = a.MaxLen
+	if a.MaxLen == -1 { // default configuration: whatever the library starts with (the oracle assumes the documented 10)
+		date.MaxInputLength = libdefaults.DateMaxInputLength
+	}
 	time.Local = defaultLocal
 	if a.Zone != "" {
 		if loc, err := time.LoadLocation(a.Zone); err == nil {
@@ -46,6 +48,9 @@ const (
 )
 
 func expect(in []byte, rule, maxLen int) (cls int, y int64, m, d int) {
+	if maxLen == -1 {
+		maxLen = 10
+	}
 	if len(in) == 0 {
 		return expReject, 0, 0, 0
 	}
@@ -217,7 +222,7 @@ func main() {
 				w.NonTrivial()
 			}
 			np := paths
-			if paths == 3 && ml == 10 && zone == "" {
+			if paths == 3 && ml == -1 && zone == "" {
 				np = 5 // + the two named-type instantiations (default limit, default zone only)
 			}
 			for path := 0; path < np; path++ {
@@ -239,7 +244,7 @@ func main() {
 			})
 			reset()
 		})
-		limits := []int{10, 0, 8, 15}
+		limits := []int{-1, 0, 8, 15} // -1: the library's own default (documented 10)
 		// every small limit: all valid and near-valid texts of length 6..12 under MaxInputLength 1..12
 		r.Phase("every MaxInputLength 1..12 x valid and near-valid texts of length 6..12 x 2 rules x 3 entry points", "complete grid", func() {
 			texts := []string{"20200229", "20210229", "2020-02-29", "2020-2-29", "202002290", "020200229", "2020229", "12345-01-01", "123450101", "1234-01-01", "12340101", "123-01-01", "1230101", "2020-02-3", "100000101", "10000-01-01", "999999999-12-31", "9999999991231"}
